@@ -78,10 +78,11 @@ BBS_TYPES = [
 class Undecided(Exception):
     """A tool / anchor / dialect problem: never an alarm (exit 2)."""
 
-    def __init__(self, reason, detail=""):
+    def __init__(self, reason, detail="", fn=None):
         super().__init__(f"{reason}: {detail}")
         self.reason = reason
         self.detail = detail
+        self.fn = fn  # the /repo function the problem is in (when known)
 
 
 def load_unit(name):
@@ -207,6 +208,11 @@ def parse_vc(path):
                 mode = "loopend"
             elif s.startswith("@proof "):
                 m = re.match(r"^@proof\s+(before|after)\s+(.*)$", s)
+                if s == "@proof start":
+                    buf = []
+                    cur.proofs.append(("start", "", buf))
+                    mode = "proof"
+                    continue
                 if not m:
                     raise Undecided("tool-error", f"{path}:{ln}: bad @proof")
                 buf = []
@@ -244,6 +250,7 @@ class Out:
     def __init__(self):
         self.lines = []
         self.meta = []
+        self.waived = []
 
     def add(self, text, **meta):
         for l in text.split("\n"):
@@ -286,8 +293,27 @@ class Out:
         return "\n".join(self.lines) + "\n"
 
 
+def load_waived():
+    """(fn, label) pairs of recorded-not-repaired findings: exactly that clause at that function is
+    waived (dropped from the assembled file so that it cannot eat the solver budget or mask others)."""
+    p = os.path.join(VERIF, "known_findings.json")
+    try:
+        with open(p) as f:
+            k = json.load(f)
+    except Exception:
+        return set()
+    return {(x.get("fn"), x.get("label")) for x in k.get("findings", []) if x.get("fn") and x.get("label") and not x.get("site_text")}
+
+
 def sub_markers(item, contract, out, assume=False, twin=None):
     """Emit one function (or its signature only when assumed) with contract text spliced in."""
+    if contract is not None:
+        waived = {l for (f, l) in load_waived() if f == item["path"]}
+        if waived and any(lab in waived for _, lab in contract.spec):
+            import copy
+            contract = copy.copy(contract)
+            contract.spec = [(t, lab) for (t, lab) in contract.spec if lab not in waived]
+            out.waived.extend((item["path"], l) for l in sorted(waived))
     text = item["text"]
     path = item["path"]
     rel = os.path.relpath(item["file"], REPO)
@@ -301,6 +327,7 @@ def sub_markers(item, contract, out, assume=False, twin=None):
     src_lines = text.split("\n")
     inserts_before = {}
     inserts_after = {}
+    start_lines = []
     def _loopvar(m):
         nm, k = m.group(1), m.group(2)
         lps = item.get("loops", [])
@@ -312,12 +339,15 @@ def sub_markers(item, contract, out, assume=False, twin=None):
     if contract is not None and not assume:
         for where, anchor, lines in contract.proofs:
             lines = [(re.sub(r"\$([A-Za-z_]+)(?:#(\d+))?", _loopvar, t), lab) for (t, lab) in lines]
+            if where == "start":
+                start_lines.extend(lines)
+                continue
             if anchor.startswith("="):
                 hits = [i for i, l in enumerate(src_lines) if l.strip() == anchor[1:].strip()]
             else:
                 hits = [i for i, l in enumerate(src_lines) if anchor in l]
             if len(hits) != 1:
-                raise Undecided("lost-anchor", f"{path}: proof anchor {anchor!r} matches {len(hits)} lines")
+                raise Undecided("lost-anchor", f"{path}: proof anchor {anchor!r} matches {len(hits)} lines", fn=path)
             (inserts_before if where == "before" else inserts_after).setdefault(hits[0], []).extend(lines)
     # loops
     loop_spec = {}
@@ -329,7 +359,7 @@ def sub_markers(item, contract, out, assume=False, twin=None):
         for ci, (fp, k, lines) in enumerate(contract.loops):
             ids = by_fp.get(fp, [])
             if k >= len(ids):
-                raise Undecided("lost-anchor", f"{path}: loop header {fp!r} #{k} not found (have: {sorted(by_fp)})")
+                raise Undecided("lost-anchor", f"{path}: loop header {fp!r} #{k} not found (have: {sorted(by_fp)})", fn=path)
             lid = ids[k]
             loop_spec[lid] = [(re.sub(r"\$([A-Za-z_]+)", lambda m: f"{m.group(1)}__{lid}", t), lab) for (t, lab) in lines]
             used.add(lid)
@@ -341,12 +371,13 @@ def sub_markers(item, contract, out, assume=False, twin=None):
         for fp, k, lines in contract.loopends:
             ids = by_fp.get(fp, [])
             if k >= len(ids):
-                raise Undecided("lost-anchor", f"{path}: loop header {fp!r} #{k} not found (have: {sorted(by_fp)})")
+                raise Undecided("lost-anchor", f"{path}: loop header {fp!r} #{k} not found (have: {sorted(by_fp)})", fn=path)
             lid = ids[k]
             loopend_spec[lid] = [(re.sub(r"\$([A-Za-z_]+)", lambda m: f"{m.group(1)}__{lid}", t), lab) for (t, lab) in lines]
     base_meta = {"kind": "code", "fn": path, "file": rel}
     first = True
     pending_twin = None
+    pending_start = False
     for i, l in enumerate(src_lines):
         repo_line = item["line"] + i
         if i in inserts_before:
@@ -366,6 +397,8 @@ def sub_markers(item, contract, out, assume=False, twin=None):
                     return
                 if twin is not None:
                     pending_twin = f"VACUITY.{path}"
+                if start_lines:
+                    pending_start = True
             elif p.startswith("/*@LOOPEND:"):
                 lid = int(p[11:-2])
                 if lid in loopend_spec:
@@ -383,12 +416,21 @@ def sub_markers(item, contract, out, assume=False, twin=None):
                 if twin is not None:
                     pending_twin = f"VACUITY.{path}#loop{lid}"
             else:
+                if pending_start and pending_twin is None and p.lstrip().startswith("{"):
+                    i0 = p.index("{")
+                    out.add(p[: i0 + 1], **base_meta, line=repo_line)
+                    out.add_labelled(start_lines, kind="contract", fn=path, file=rel, line=repo_line)
+                    pending_start = False
+                    p = p[i0 + 1 :]
                 if pending_twin is not None and p.lstrip().startswith("{"):
                     i0 = p.index("{")
                     out.add(p[: i0 + 1] + " proof { assert(false); }", kind="contract", fn=path, file=rel, line=repo_line, label=pending_twin)
                     twin.append(pending_twin)
                     pending_twin = None
                     p = p[i0 + 1 :]
+                    if pending_start:
+                        out.add_labelled(start_lines, kind="contract", fn=path, file=rel, line=repo_line)
+                        pending_start = False
                 cur += p
         if cur != "" or len(parts) == 1:
             out.add(cur, **base_meta, line=repo_line)
@@ -507,11 +549,11 @@ def assemble(unit, items=None, twin=False):
     for p, a in [(p, False) for p in verify] + [(p, True) for p in assume]:
         it = items.get(p)
         if it is None:
-            raise Undecided("lost-anchor", f"function {p} not found in /repo (renamed or removed)")
+            raise Undecided("lost-anchor", f"function {p} not found in /repo (renamed or removed)", fn=p)
         if it["kind"] not in ("fn", "impl_const"):
             raise Undecided("tool-error", f"{p} is a {it['kind']}")
         if it["errors"] and not a:
-            raise Undecided("unsupported", f"{p}: {it['errors']}")
+            raise Undecided("unsupported", f"{p}: {it['errors']}", fn=p)
         hdr = it.get("impl_header")
         if hdr:
             m = re.match(r"^(impl(?:<.*?>)?)\s+(\w+)\s+for\s+(.*)$", hdr)
